@@ -478,6 +478,91 @@ func ruleFlushBeforeTerminal() check.Rule {
 	}
 }
 
+// HOMONYM-WRAPPER: a lift named after a library function calls that function.
+func ruleHomonymWrapper() check.Rule {
+	return check.Rule{
+		Name: "HOMONYM-WRAPPER",
+		Doc:  "in the plugin packages, when an exported function F calls a method of a library type (or a function of a library package) and that type (package) also has a method (function) named exactly F with identical parameter and result types, the one F calls is the homonym: `ReplaceAll` lifting `(*Regexp).ReplaceAllLiteral`, or `ParseInt` lifting `strconv.ParseUint`, is a faithful lift of the wrong function",
+		Run: func(c *check.Ctx) {
+			m := c.M
+			n := 0
+			for _, p := range m.Pkgs {
+				if !c.ArmedPkg(p.PkgPath) {
+					continue
+				}
+				info := p.TypesInfo
+				for _, f := range p.Syntax {
+					if strings.HasSuffix(c.Prog.Fset.Position(f.Pos()).Filename, "_test.go") {
+						continue
+					}
+					for _, d := range f.Decls {
+						fd, ok := d.(*ast.FuncDecl)
+						if !ok || fd.Body == nil || fd.Recv != nil || !fd.Name.IsExported() || check.IsControlName(fd.Name.Name) {
+							continue
+						}
+						ast.Inspect(fd.Body, func(x ast.Node) bool {
+							call, ok := x.(*ast.CallExpr)
+							if !ok {
+								return true
+							}
+							cl := model.Callee(info, call)
+							if cl == nil || cl.Pkg() == nil || cl.Pkg() == p.Types || strings.HasPrefix(cl.Pkg().Path(), "github.com/samber/ro") {
+								return true
+							}
+							sig, _ := cl.Type().(*types.Signature)
+							if sig == nil {
+								return true
+							}
+							// the homonym must be callable with the very same arguments (identical parameter and result types):
+							// only then is "calls a different function of the same shape" a slip rather than a design choice
+							hasHomonym := false
+							sameShape := func(o types.Object) bool {
+								hf, isFn := o.(*types.Func)
+								if !isFn {
+									return false
+								}
+								hs, _ := hf.Type().(*types.Signature)
+								return hs != nil && types.Identical(hs.Params(), sig.Params()) && types.Identical(hs.Results(), sig.Results())
+							}
+							if recv := sig.Recv(); recv != nil {
+								if o, _, _ := types.LookupFieldOrMethod(recv.Type(), true, cl.Pkg(), fd.Name.Name); o != nil && sameShape(o) {
+									hasHomonym = true
+								}
+							} else if o := cl.Pkg().Scope().Lookup(fd.Name.Name); o != nil && sameShape(o) {
+								hasHomonym = true
+							}
+							if !hasHomonym {
+								return true
+							}
+							n++
+							key := fmt.Sprintf("%s.%s/lifts-%s", model.ShortPkg(p.PkgPath), fd.Name.Name, cl.Name())
+							if cl.Name() == fd.Name.Name {
+								c.OK(key, call.Pos(), "lifts its homonym %s.%s", cl.Pkg().Name(), cl.Name())
+							} else if sameFamilyHelper(cl.Name(), fd.Name.Name) {
+								c.OK(key, call.Pos(), "auxiliary call %s next to the homonym", cl.Name())
+							} else {
+								c.Violation(key, call.Pos(), "%s is named after %s.%s, which exists, but calls %s.%s: the emitted value is not what the function it is named after returns", fd.Name.Name, cl.Pkg().Name(), fd.Name.Name, cl.Pkg().Name(), cl.Name())
+							}
+							return true
+						})
+					}
+				}
+			}
+			c.Inc("homonym_lifts", n)
+		},
+	}
+}
+
+// sameFamilyHelper: calls that legitimately accompany the homonym in the same function (the function also calls its
+// homonym elsewhere is not required: constructors, error formatting and conversions of the same library are common).
+func sameFamilyHelper(callee, fn string) bool {
+	switch callee {
+	case "Error", "String", "Errorf", "New", "Len", "Bytes":
+		return true
+	}
+	return false
+}
+
 func pluginControl(pkgName string, imports []string, body string) string {
 	var sb strings.Builder
 	sb.WriteString("package " + pkgName + "\n\nimport (\n")
@@ -534,7 +619,7 @@ func C18() *check.Property {
 		Patterns: cat(CorePatterns, PluginPkgs),
 		Scope:    scope,
 		Rules: []check.Rule{ruleStableMeansStable(), ruleNoInputMutation(), ruleNoPostDeliveryMutation(), ruleFlavourAgreement(),
-			ruleErrResultUsed(), ruleRelease(), ruleCtxProvenance(), ruleStateLevel(), ruleErrPropagation(), ruleUserFnContext(), ruleFlushBeforeTerminal(), ruleBodyTerminates(), ruleTerminalPropagation(), ruleDeadEmission(), ruleObservableParamUsed(), ruleLateEmission(), ruleSlotCtxArgument(), ruleCallbackCtxUsed(), ruleDeadContextStore()},
+			ruleErrResultUsed(), ruleRelease(), ruleCtxProvenance(), ruleStateLevel(), ruleErrPropagation(), ruleUserFnContext(), ruleFlushBeforeTerminal(), ruleBodyTerminates(), ruleTerminalPropagation(), ruleDeadEmission(), ruleObservableParamUsed(), ruleLateEmission(), ruleSlotCtxArgument(), ruleCallbackCtxUsed(), ruleDeadContextStore(), ruleHomonymWrapper(), ruleIncorporateBeforeDecide()},
 		Explanation: "Structural clauses only; equality of each emitted value with the wrapped function's result on all inputs is NOT decided. On the plugin packages the property names: an operator called Stable sorts with a stable algorithm (STABLE-MEANS-STABLE); " +
 			"no function that receives a slice writes through it or a derived sub-slice, including append onto it (NO-INPUT-MUTATION, taint over slicing, conversions and sub-slice-returning standard functions); an emitted slice is never the operator's reused buffer " +
 			"(NO-POST-DELIVERY-MUTATION, e.g. a read buffer allocated outside the loop); the byte flavour never classifies single bytes with unicode.Is* (FLAVOUR-AGREEMENT); and the core-contract rules are re-run with plugin scope: error results become Error notifications " +
